@@ -1,1 +1,36 @@
-fn main() {}
+//! protox — bounded-exhaustive exploration of the sans-IO crate `wtransport-proto`.
+mod adapt;
+mod c14;
+mod util;
+
+#[global_allocator]
+static ALLOC: util::CountingAlloc = util::CountingAlloc;
+
+fn main() {
+    let args = vx::Args::parse();
+    util::install_panic_hook();
+    if let Some(path) = &args.replay {
+        let v = vx::load_replay(path);
+        let sc = &v["scenario"];
+        let res = match args.prop.as_str() {
+            "C14" => c14::replay(sc),
+            p => vx::machinery(&format!("protox: no replay for {p}")),
+        };
+        match res {
+            Ok(()) => {
+                println!("REPLAY property={} holds on this scenario", args.prop);
+                std::process::exit(0)
+            }
+            Err(e) => {
+                println!("REPLAY property={} fails: {e}", args.prop);
+                println!("VIOLATION property={} replay={}", args.prop, path.display());
+                std::process::exit(1)
+            }
+        }
+    }
+    let code = match args.prop.as_str() {
+        "C14" => c14::run(&args),
+        p => vx::machinery(&format!("protox does not serve {p}")),
+    };
+    std::process::exit(code)
+}
